@@ -365,6 +365,37 @@ func disturb(k int, rng *lib.Rng, clean bool) {
 	}
 }
 
+// otherKindFirst constructs and uses interpreters whose builtin set differs from NewZlisp's.
+func otherKindFirst() {
+	lines := []string{`(def a [10 20 30])`, `{a[1] + a[2]}`, `{a[0] = 5}`, `{b := a[2] * 2}`, `(def h (hash x:1))`, `{h.x + 1}`,
+		`(gensym)`, `(defn f [x] (+ x 1))`, `(f 2)`, `(str (quote car))`, `(for [(def i 0) (< i 2) (set i (+ i 1))] i)`, `(undefined_sym)`}
+	use := func(mk func() *zygo.Zlisp) {
+		defer func() { recover() }()
+		env := mk()
+		env.StandardSetup()
+		for _, line := range lines {
+			lib.Eval(env, line, stepBudget)
+		}
+	}
+	use(func() *zygo.Zlisp { return zygo.NewZlispSandbox() })
+	use(func() *zygo.Zlisp {
+		// every third builtin (in name order) left out
+		all := zygo.AllBuiltinFunctions()
+		names := make([]string, 0, len(all))
+		for k := range all {
+			names = append(names, k)
+		}
+		sort.Strings(names)
+		fm := map[string]zygo.ZlispUserFunction{}
+		for i, k := range names {
+			if i%3 != 1 {
+				fm[k] = all[k]
+			}
+		}
+		return zygo.NewZlispWithFuncs(fm)
+	})
+}
+
 func runChild(mode, progsPath, resPath string, sel, nreps int, order uint64, procIdx int) {
 	b, err := os.ReadFile(progsPath)
 	if err != nil {
@@ -389,6 +420,14 @@ func runChild(mode, progsPath, resPath string, sel, nreps int, order uint64, pro
 	}
 	zygo.RegisterDemoStructs()
 	registerTypes()
+	// the FIRST interpreter a process constructs may leave something behind that every later one
+	// picks up (a lazily filled package-level singleton: Properties/C20.v store_if_unset_history --
+	// the first construction decides).  In the after-modes half of the processes therefore start with
+	// interpreters of ANOTHER configuration (sandboxed; a reduced builtin set: other symbol numbers),
+	// created and used before the first ordinary interpreter exists.
+	if (mode == "after" || mode == "afterclean") && order&1 == 1 {
+		otherKindFirst()
+	}
 	// warm-up: ImportDemoData registers nestouter/nestinner on its first call; one discarded
 	// interpreter makes that part of the process set-up (as RegisterDemoStructs is), so that
 	// every measured interpreter starts from the same registry unless a PROGRAM changes it.
